@@ -387,7 +387,7 @@ type AssignmentValue struct {
 
 func (value *AssignmentValue) DeepCopy() AssignmentValue {
 	clone := AssignmentValue{
-		Constant: value.Constant,
+		Constant: deepCopyValue(value.Constant),
 	}
 
 	if value.Argument != nil {
